@@ -19,6 +19,9 @@ pub fn seed_from_env() -> u64 {
 
 /// Silence the default panic printer: a panic in code under test is data.
 pub fn quiet_panics() {
+    if std::env::var("VERIF_LOUD").is_ok() {
+        return;
+    }
     std::panic::set_hook(Box::new(|_| {}));
 }
 
